@@ -1,6 +1,7 @@
 (* C15: statements that the faithful model of the UNCHANGED code violates (witnesses by computation; each
    schedule was also replayed on the real bootstrapContext by the harness, corpus/... scenarios). *)
-From SG Require Import Base.Prelude C15.ConfigProto C15.ProtoOwn C15.ProtoSeq C15.C15_Corr.
+From SG Require Import Base.Prelude C15.ConfigProto C15.ProtoOwn C15.ProtoSeq C15.ProtoRace C15.ProtoRaceMain
+  C15.ConfigApply C15.ApplyProofs C15.C15_Corr.
 Open Scope N_scope.
 
 (* 1. registry_ownership without side condition.  A creator of db1 {1} stalls after its registry write; a loader
@@ -94,4 +95,160 @@ Proof.
   destruct (H stale_ops stale_evs 3 7 [2] 3%nat nd Hseq Hn Ho Hr) as (d' & e & Hne & He & _ & Hi).
   rewrite Hreg in He. cbn [aget] in He. destruct (1 =? d'); [|discriminate]. injection He as <-.
   vm_compute in Hi. discriminate.
+Qed.
+
+(* ================= the schedule conditions of the racing theorems are necessary ================= *)
+(* Each witness violates exactly ONE of the four conditions (the other three hold along the whole schedule) and
+   ends in a store that is not linked.  4a and 4d need a node that is stalled for longer than the retry timeout;
+   4b and 4c do NOT: they are races of the unchanged code between nodes that all run at full speed. *)
+
+(* 4a. no_giveup_while_alive: the stalled creator of section 2 *)
+Theorem racing_needs_no_giveup_while_alive :
+  no_giveup_while_alive orphan_ops orphan_evs = false /\ no_stale_giveup orphan_ops orphan_evs = true /\
+  no_overlap_with_finalize orphan_ops orphan_evs = true /\ prompt_rollback orphan_ops orphan_evs = true /\
+  ~ linked (aget (regc (w_st (run orphan_ops orphan_evs))) 1) (aget (s_cfg (w_st (run orphan_ops orphan_evs))) 1).
+Proof. repeat split; try (vm_compute; reflexivity). exact linkage_refuted_racing. Qed.
+
+(* ... and registry_ownership: the eight-node witness of section 1 violates only no_giveup_while_alive *)
+Theorem ownership_racing_needs_no_giveup_while_alive :
+  no_giveup_while_alive own_ops own_evs = false /\ no_stale_giveup own_ops own_evs = true /\
+  no_overlap_with_finalize own_ops own_evs = true /\ prompt_rollback own_ops own_evs = true /\
+  w_bad (run own_ops own_evs) = true.
+Proof. vm_compute. repeat split. Qed.
+
+(* 4b. no_stale_giveup -- GENUINE DEFECT, no stalled node.  Node 0 (create db1) reads the registry: no db1.  Node 1
+   creates db1 completely and is acknowledged.  Node 0's waitForConfigDelete(version "") now finds a config
+   document, waits for its own retry timeout (nobody is in flight: the timer may fire) and DELETES the document of
+   the acknowledged create; its registry write fails on CAS, the retry removes node 1's registry entry as an
+   "interrupted create" and node 0 creates its own db1: both creates are acknowledged, node 1's is lost. *)
+Definition stale_wait_ops : list opk := [OInsert 1 1 [1]; OInsert 1 2 [1]].
+Definition stale_wait_evs : list event :=
+  [Step 0 true 0; Step 1 true 0; Step 1 true 0; Step 1 true 0; Step 1 true 0; Step 0 true 0; Step 0 true 0].
+Definition stale_wait_rest : list event := repeat (Step 0 true 0) 9.
+
+Theorem acked_lost_to_stale_wait :
+  no_giveup_while_alive stale_wait_ops stale_wait_evs = true /\ no_stale_giveup stale_wait_ops stale_wait_evs = false /\
+  no_overlap_with_finalize stale_wait_ops stale_wait_evs = true /\ prompt_rollback stale_wait_ops stale_wait_evs = true /\
+  (* node 1 is acknowledged, its config document is gone *)
+  nth_error (map result_of (w_nodes (run stale_wait_ops stale_wait_evs))) 1 = Some (Some ROk) /\
+  aget (s_cfg (w_st (run stale_wait_ops stale_wait_evs))) 1 = None /\
+  (* and when node 0 has finished, both are acknowledged and the store holds node 0's version only *)
+  map result_of (w_nodes (run stale_wait_ops (stale_wait_evs ++ stale_wait_rest))) = [Some ROk; Some ROk] /\
+  exists c, aget (s_cfg (w_st (run stale_wait_ops (stale_wait_evs ++ stale_wait_rest)))) 1 = Some (c, CF (1,1) [1]).
+Proof. repeat split; try (vm_compute; reflexivity). vm_compute. eexists. reflexivity. Qed.
+
+Theorem acked_not_lost_full_statement_refuted_without_stall :
+  ~ (forall ops evs i nd d dig cols,
+       no_giveup_while_alive ops evs = true ->
+       nth_error (w_nodes (run ops evs)) i = Some nd -> n_op nd = OInsert d dig cols -> result_of nd = Some ROk ->
+       (forall o, In o ops -> op_db o = d -> exists dig' cols', o = OInsert d dig' cols') ->
+       aget (s_cfg (w_st (run ops evs))) d <> None).
+Proof.
+  intros H.
+  assert (exists nd, nth_error (w_nodes (run stale_wait_ops stale_wait_evs)) 1 = Some nd /\
+                     n_op nd = OInsert 1 2 [1] /\ result_of nd = Some ROk) as (nd & Hn & Ho & Hr).
+  { vm_compute. eexists. repeat split. }
+  apply (H stale_wait_ops stale_wait_evs 1%nat nd 1 2 [1]); auto; try (vm_compute; reflexivity).
+  intros o [<-|[<-|[]]] _; eauto.
+Qed.
+
+(* 4c. no_overlap_with_finalize -- GENUINE DEFECT, no stalled node, no timer at all (every step runs with the
+   timer NOT expired).  Node 1 deletes db1: registry marked, config document deleted.  Node 2 creates db1: it finds
+   the marker and no config document, so the database "does not exist"; it writes its registry entry and its
+   config document and is acknowledged.  Node 1's finalize re-reads the registry and removes whatever entry db1
+   has (removeDatabase is unconditional): the acknowledged create is left as an orphan config document without a
+   registry entry; no node loads it, and the next access to db1 deletes it. *)
+Definition del_fin_ops : list opk := [OInsert 1 1 [1]; ODelete 1; OInsert 1 2 [2]; OLoad].
+Definition del_fin_evs : list event :=
+  let P := fun i => Step i false 0 in
+  [P 0; P 0; P 0; P 0; P 1; P 1; P 1; P 1; P 2; P 2; P 2; P 2; P 1; P 1; P 3; P 3; P 3]%nat.
+
+Theorem acked_lost_to_delete_finalize :
+  no_giveup_while_alive del_fin_ops del_fin_evs = true /\ no_stale_giveup del_fin_ops del_fin_evs = true /\
+  no_overlap_with_finalize del_fin_ops del_fin_evs = false /\ prompt_rollback del_fin_ops del_fin_evs = true /\
+  map result_of (w_nodes (run del_fin_ops del_fin_evs)) = [Some ROk; Some ROk; Some ROk; Some (RLoaded [])] /\
+  aget (regc (w_st (run del_fin_ops del_fin_evs))) 1 = None /\
+  (exists c, aget (s_cfg (w_st (run del_fin_ops del_fin_evs))) 1 = Some (c, CF (1,2) [2])) /\
+  ~ linked (aget (regc (w_st (run del_fin_ops del_fin_evs))) 1) (aget (s_cfg (w_st (run del_fin_ops del_fin_evs))) 1).
+Proof. repeat split; try (vm_compute; reflexivity). - vm_compute. eexists. reflexivity. - vm_compute. exact (fun H => H). Qed.
+
+(* 4d. prompt_rollback: a loader that decided to roll back a crashed update, but writes its fence only after the
+   database has been rolled back by another loader, deleted (the deleter crashes), and a creator has given up
+   waiting for that delete: the late touch makes the creator's re-attempted delete fail (error swallowed), the
+   creator writes its registry entry over the marker while the old config document is still there. *)
+Definition late_fence_ops : list opk := [OInsert 1 1 [1]; OUpdate 1 2 [1]; OLoad; OLoad; ODelete 1; OInsert 1 3 [1]].
+Definition late_fence_evs : list event :=
+  let S := fun i => Step i true 0 in let L := fun i => Step i true 1 in
+  [S 0; S 0; S 0; S 0; S 1; S 1; S 1; Crash 1; L 3; L 3; L 2; L 2; L 2; L 2; L 3; L 2; L 2; L 2; L 2; L 2;
+   S 4; S 4; S 4; Crash 4; S 5; S 5; L 3; S 5; S 5; S 5; S 5]%nat.
+
+Theorem racing_needs_prompt_rollback :
+  no_giveup_while_alive late_fence_ops late_fence_evs = true /\ no_stale_giveup late_fence_ops late_fence_evs = true /\
+  no_overlap_with_finalize late_fence_ops late_fence_evs = true /\ prompt_rollback late_fence_ops late_fence_evs = false /\
+  ~ linked (aget (regc (w_st (run late_fence_ops late_fence_evs))) 1) (aget (s_cfg (w_st (run late_fence_ops late_fence_evs))) 1).
+Proof.
+  repeat split; try (vm_compute; reflexivity). vm_compute.
+  intros [_ [H|[[H _]|[H _]]]]; discriminate.
+Qed.
+
+(* the unconditional racing statements are false, also when no_giveup_while_alive is assumed *)
+Theorem version_linkage_racing_needs_all_hyps :
+  ~ (forall ops evs d, no_giveup_while_alive ops evs = true -> prompt_rollback ops evs = true ->
+       linked (aget (regc (w_st (run ops evs))) d) (aget (s_cfg (w_st (run ops evs))) d)).
+Proof.
+  intros H. destruct acked_lost_to_delete_finalize as (A & _ & _ & D & _ & _ & _ & N). exact (N (H _ _ 1 A D)).
+Qed.
+
+(* ================= node-local apply: convergence needs [compatible] ================= *)
+(* db1 runs on {2}, db2 on {3}; in the registry they have swapped (through intermediate versions this node never
+   polled): each config is refused because the other database still holds the collection on this node -- in both
+   orders, in every later round: the node keeps serving both databases on the collections of the other one, while
+   a fresh node loads the swapped set at once. *)
+Definition swap_running : running := [(1, AC 10 (2,1) [2]); (2, AC 11 (2,2) [3])].
+Definition swap_loaded : list (N * acfg) := [(1, AC 20 (4,1) [3]); (2, AC 21 (4,2) [2])].
+
+Theorem apply_swap_never_converges :
+  fetch_and_load swap_running swap_loaded [] = swap_running /\
+  fetch_and_load swap_running (rev swap_loaded) [] = swap_running /\
+  fetch_and_load [] swap_loaded [] = swap_loaded /\
+  (forall k, Nat.iter k (fun r => fetch_and_load r swap_loaded []) swap_running = swap_running).
+Proof.
+  assert (fetch_and_load swap_running swap_loaded [] = swap_running) as E by (vm_compute; reflexivity).
+  repeat split; try (vm_compute; reflexivity). induction k as [|k IH]; [reflexivity|].
+  change (fetch_and_load (Nat.iter k (fun r => fetch_and_load r swap_loaded []) swap_running) swap_loaded [] = swap_running).
+  rewrite IH. exact E.
+Qed.
+
+Lemma swap_sorted : sorted_keys swap_running.
+Proof. unfold swap_running. cbn. split; [intros k' v' [[= <- <-]|[]]; lia|]. split; [intros k' v' []|exact I]. Qed.
+Lemma swap_get d c : aget swap_running d = Some c -> (d = 1 /\ c = AC 10 (2,1) [2]) \/ (d = 2 /\ c = AC 11 (2,2) [3]).
+Proof.
+  unfold swap_running. cbn [aget]. destruct (1 =? d) eqn:E1.
+  - apply N.eqb_eq in E1. intros E. injection E as E. left. split; congruence.
+  - destruct (2 =? d) eqn:E2; [|discriminate]. apply N.eqb_eq in E2. intros E. injection E as E. right. split; congruence.
+Qed.
+Lemma swap_noshare : NoShare swap_running.
+Proof.
+  intros d1 d2 c1 c2 Hne H1 H2. apply swap_get in H1, H2.
+  destruct H1 as [[-> ->]|[-> ->]], H2 as [[-> ->]|[-> ->]]; try contradiction; cbn; intros x [<-|[]] [E|[]]; discriminate.
+Qed.
+Lemma swap_in x : In x swap_loaded -> x = (1, AC 20 (4,1) [3]) \/ x = (2, AC 21 (4,2) [2]).
+Proof. intros [<-|[<-|[]]]; auto. Qed.
+
+Theorem apply_converges_full_statement_refuted :
+  ~ (forall r l, sorted_keys r -> NoShare r -> OwnL l -> FunL l -> coherent r l ->
+       (forall x, In x l -> a_cas (snd x) <> 0 /\ is_invalid (a_ver (snd x)) = false) ->
+       exists k, forall d, aget (Nat.iter k (fun r0 => fetch_and_load r0 l []) r) d = cfg_of l d).
+Proof.
+  intros H. destruct (H swap_running swap_loaded) as (k & Hk).
+  - exact swap_sorted.
+  - exact swap_noshare.
+  - intros d1 c1 d2 c2 H1 H2 Hne. apply swap_in in H1, H2.
+    destruct H1 as [[= -> ->]|[= -> ->]], H2 as [[= -> ->]|[= -> ->]]; try contradiction; cbn; intros x [<-|[]] [E|[]]; discriminate.
+  - intros d c1 c2 H1 H2. apply swap_in in H1, H2.
+    destruct H1 as [[= -> ->]|[= -> ->]], H2 as [E|E]; inversion E; reflexivity.
+  - intros d c old H1 Hg Hle. apply swap_in in H1. apply swap_get in Hg.
+    destruct H1 as [[= -> ->]|[= -> ->]], Hg as [[E Ec]|[E Ec]]; subst old; cbn in Hle; lia.
+  - intros x Hx. apply swap_in in Hx. destruct Hx as [-> | ->]; cbn; split; (discriminate || reflexivity).
+  - destruct apply_swap_never_converges as (_ & _ & _ & Hs). specialize (Hk 1). rewrite Hs in Hk. vm_compute in Hk. discriminate.
 Qed.
